@@ -44,3 +44,46 @@ def r03_5_units(ctx: Ctx) -> RuleResult:
     from ..dims import units_rule
 
     return units_rule(ctx, "R03.5", "C03", 100)
+
+
+ROUNDING_HELPER_QUALS = ["_csharp_compatibility._towards_zero_division", "_csharp_compatibility._csharp_modulo"]
+
+
+@rule("C03")
+def r03_6_rounding_helpers_exact(ctx: Ctx) -> RuleResult:
+    """The helpers every truncating division / remainder of the integer core goes through are themselves exact on integers."""
+    from ..kit import own_nodes
+
+    rr = RuleResult("R03.6", "the truncating-division and remainder helpers use integer arithmetic for integer operands (no Decimal / float / true division on that path), so quotients are exact for any magnitude", min_instances=2)
+    M = ctx.M
+    for q in ROUNDING_HELPER_QUALS:
+        f = M.func(q, required=False)
+        if f is None:
+            raise AnalysisError(f"rounding helper {q} vanished")
+        rr.inst()
+        params = [a.arg for a in f.params]
+        body = f.body
+        int_path = body
+        first = body[0] if body else None
+        if isinstance(first, ast.If):
+            tests = unparse(first.test)
+            if all(f"isinstance({p}, int)" in tests for p in params[:2]) and isinstance(first.test, ast.BoolOp) and isinstance(first.test.op, ast.And):
+                int_path = first.body  # operands known to be ints here; it must return
+                if not (int_path and isinstance(int_path[-1], ast.Return)):
+                    rr.fail(f.qual, "the integer branch falls through to the non-integer arithmetic", ctx.loc(f, first))
+                    continue
+        bad = None
+        for s in int_path:
+            for n in ast.walk(s):
+                if isinstance(n, ast.BinOp) and isinstance(n.op, ast.Div):
+                    bad = n
+                elif isinstance(n, ast.Call) and unparse(n.func).split(".")[-1] in ("Decimal", "float", "pow", "quantize", "round"):
+                    bad = n
+                elif isinstance(n, (ast.Import, ast.ImportFrom)) and any("decimal" in (a.name or "") or "decimal" in (getattr(n, "module", "") or "") for a in n.names):
+                    bad = n
+        if bad is not None:
+            rr.fail(f.qual, f"integer operands are divided through non-integer arithmetic (`{unparse(bad)[:60]}`): quotients are inexact beyond the precision of that arithmetic (28 digits for Decimal, 2**53 for float)", ctx.loc(f, bad))
+        else:
+            rr.ok({"helper": q, "integer_path": " ; ".join(unparse(s)[:60] for s in int_path)[:160]})
+    # the callers pass integers: every call site's operands are typed int (float callers use the other branch knowingly)
+    return rr
